@@ -1,4 +1,5 @@
-"""seed_matrix.py <nworkers> : run EVERY quick check against EVERY seeded change, in parallel worker copies.
+"""seed_matrix.py <nworkers> [--target-only] : run EVERY quick check (or, with --target-only, the check of the change's own
+property; the clean tree always gets all twenty) against EVERY seeded change, in parallel worker copies.
 
 Each worker has its own copy of /verif (so generated Lean files, evidence and work files do not collide) and its own
 copy of the repository (DLTYPE_VERIF_REPO).  Results: /verif/seeded/matrix.json  {mutation: {check: exit code}}.
@@ -38,7 +39,7 @@ def job(args):
         if r.returncode != 0:
             return mut, {"apply": r.stderr[:200]}
     env = dict(os.environ, DLTYPE_VERIF_REPO=repo)
-    for c in PROPS:
+    for c in (PROPS if (mut == "clean" or not TARGET_ONLY) else [mut[:3]]):
         t0 = time.time()
         r = subprocess.run(f"cd {verif} && timeout 1500 ./check {c} --tier quick", shell=True, text=True, capture_output=True, env=env)
         first = next((l.strip()[:220] for l in r.stdout.splitlines() if l.startswith("  - ")), "")
@@ -48,13 +49,16 @@ def job(args):
     return mut, res
 
 
+TARGET_ONLY = "--target-only" in sys.argv
+
+
 def main():
     n = int(sys.argv[1])
     muts = sorted(d for d in os.listdir(f"{VERIF}/seeded") if os.path.isdir(f"{VERIF}/seeded/{d}"))
     workers = [setup(k) for k in range(n)]
     queue = ["clean"] + muts
     out = {}
-    path = f"{VERIF}/seeded/matrix.json"
+    path = f"{VERIF}/seeded/matrix.json" if TARGET_ONLY else f"{VERIF}/seeded/matrix_cross.json"
     # static round-robin assignment, one thread per worker
     def run_worker(k):
         for m in queue[k::n]:
